@@ -48,8 +48,8 @@ Verdict(r) ==
   IF r.preanom # <<>> THEN <<"tainted">> ELSE
   LET pre == FromJ(r.pre) IN
   IF ~Integrity(pre) \/ ~UidFresh(pre) THEN <<"tainted">>
-  ELSE IF r.postanom # <<>> THEN <<"C01:anomaly." \o r.postanom[1]>>
   ELSE IF Unspecified(pre, r.op) THEN <<"unspecified">>
+  ELSE IF r.postanom # <<>> THEN <<"C01:anomaly." \o r.postanom[1]>>
   ELSE
     LET post == FromJ(r.post)
         outs == Outcomes(pre, r.op, post.nodes)
